@@ -210,7 +210,14 @@ func runC15(x *simkit.Exec) {
 					break
 				}
 			}
-			s.Note("q%d %s -> %v", qi, what, names)
+			var sorted []string
+			for _, qb := range hints.QueriedBlocks {
+				if b := byID[qb.Id]; b != nil {
+					sorted = append(sorted, b.Canon)
+				}
+			}
+			sort.Strings(sorted)
+			s.Note("q%d %s -> %v", qi, what, sorted)
 			if bad {
 				continue
 			}
